@@ -1,6 +1,7 @@
 import Req.Driver.Proto
 import Req.Client.Url
 import Req.Driver.WireUtil
+import Req.Client.Merge
 /-! Driver lanes of C01. -/
 namespace Req.Driver.L.C01
 open Req.Proto
@@ -124,7 +125,52 @@ def laneH1 (args : List String) : String :=
       if order.isEmpty then "ok " ++ Wire.showBlob wire
       else Wire.showOrdered wire order
 
+/-- cookies: `name:value:q,…` (hex, q = 0/1) or `-`. -/
+def decodeCookies (s : String) : Option (List Req.Merge.Cookie) :=
+  if s == "-" then some [] else
+  (s.splitOn ",").mapM fun e =>
+    match e.splitOn ":" with
+    | [n, v, q] => do pure { name := (← decodeHex n), value := (← decodeHex v), quoted := (← Wire.decodeBool q) }
+    | _ => none
+
+def encodeHdr (h : List Req.HeaderSort.KV) : String :=
+  if h.isEmpty then "-" else
+  ",".intercalate (h.map fun kv => ":".intercalate (encodeHex kv.key :: kv.values.map encodeHex))
+
+/-- `c01pipe <method> <rawURL> <rPath> <cPath> <cScheme> <baseURL> <cQuery> <rQuery> <cHdr|nil> <rHdr>
+<cCookies> <rCookies> <bodyKind none|bytes|reader> <body> <allowGet>` → the `*http.Request` that
+`Client.roundTrip` hands to the transport. -/
+def lanePipe : List String → String
+  | [m, raw, rp, cp, sch, base, cq, rq, ch, rh, cc, rc, bk, body, ag] =>
+    let ch? : Option (Option (List Req.HeaderSort.KV)) :=
+      if ch == "nil" then some none else (Wire.decodeHdr ch).map some
+    match decodeHex m, decodeHex raw, decodePMap rp, decodePMap cp, decodeHex sch, decodeHex base,
+          decodeQMap cq, decodeQMap rq, ch?, Wire.decodeHdr rh, decodeCookies cc, decodeCookies rc,
+          Wire.decodeBody body, Wire.decodeBool ag with
+    | some m, some raw, some rp, some cp, some sch, some base, some cq, some rq, some ch, some rh,
+      some cc, some rc, some body, some ag =>
+      let bs? : Option Req.Merge.BodySpec :=
+        if bk == "none" then some .none else if bk == "bytes" then some (.bytes body)
+        else if bk == "reader" then some (.reader body) else none
+      match bs? with
+      | none => "bad-op"
+      | some bs =>
+        let api : Req.Merge.Api :=
+          { method := m,
+            url := { rawURL := raw, rPath := rp, cPath := cp, cScheme := sch, baseURL := base,
+                     cQuery := cq, rQuery := rq },
+            cHeaders := ch, rHeaders := rh, cCookies := cc, rCookies := rc, body := bs,
+            allowGetPayload := ag }
+        match Req.Merge.buildRequest api with
+        | .error _ => "err"
+        | .ok r =>
+          showUrl r.url ++ s!" m={encodeHex r.method} host={encodeHex r.host} hdr={encodeHdr r.header} " ++
+            s!"cl={r.contentLength} hasbody={b01 r.hasBody} " ++ Wire.showBlob r.body
+    | _, _, _, _, _, _, _, _, _, _, _, _, _, _ => "bad-op"
+  | _ => "bad-op"
+
 def lanes : List (String × (List String → String)) := [
+  ("c01pipe", lanePipe),
   ("c01h1", laneH1),
   ("c01url", laneUrl),
   ("c01parse", laneParse),
